@@ -434,9 +434,12 @@ func lexValue(l *lexer) stateFn {
 		}
 	}
 
-	if seenFinalQuote || r != eof {
-		l.emit(itemValue)
+	if !seenFinalQuote && r == eof {
+		return l.errorf("unterminated string")
 	}
+
+	l.emit(itemValue)
+
 	return lexText
 }
 
